@@ -452,7 +452,7 @@ fn client_group() -> BoxedStrategy<Vec<String>> {
         3 => sel(&["-u", "--upload"]).prop_map(|f| vec![f]),
         3 => sel(&["-d", "--download"]).prop_map(|f| vec![f]),
         2 => Just(vec!["--keep-on-error".to_string()]),
-        4 => sel(&["file.bin", "dir/file.bin", "dir\\sub\\file.bin", "/abs/file", "\\\\share\\f", "--bogus", "", "a b", "tftpc"]).prop_map(|f| vec![f]),
+        4 => sel(&["file.bin", "dir/file.bin", "dir\\sub\\file.bin", "/abs/file", "\\\\share\\f", "--bogus", "", "a b", "tftpc", "README.md", "Dir/File.BIN", "Dir\\Image-V2.BIN", "UPPER", "-U", "--Upload", "-RD"]).prop_map(|f| vec![f]),
     ]
     .boxed()
 }
